@@ -128,7 +128,9 @@ def assumed_contracts(modnames):
     for m in modnames:
         mod = importlib.import_module(m)
         for c in mod.CONTRACTS:
-            if not c.verify:
+            if not c.verify and "bounded stand-in" in (c.note or ""):
+                out.append(f"BOUNDED contract (evaluated on the real function over an enumerated box, never counted as proved): {c.qualname}")
+            elif not c.verify:
                 out.append(f"ASSUMED contract (dependency, not verified): {c.qualname} — {c.note}")
         out.extend(getattr(mod, "TRUSTED", []))
     return out
